@@ -513,6 +513,63 @@ func off[S any, F any](s *S, f *F) uintptr { return uintptr(unsafe.Pointer(f)) -
         self.w('\trt.WrongArg("C02", c, "xa.Box reflector: Putt(*xb.Box)", unsafe.Pointer(b), unsafe.Sizeof(*b), func() { ra.Putt(b, "hijacked") })')
         self.w('\trt.End(c, "C02/static/foreign", true)\n}\n')
 
+    def gen_static_hidden(self):
+        """hand-written shapes: embedded pointers that Go's selector rules hide (the same embedded type twice at one depth,
+        or a shallower field of its name); and a value-embedded struct inside a pointer-embedded one. The sequence of the
+        container lists the fields behind them all the same, and every derivation that reaches them must be refused -
+        for plain and for composed optics."""
+        self.decls.append('type HMeta struct {\n\tRev int64\n\tWho string\n}\n'
+                          'type HAudit struct {\n\t*HMeta\n\tAt int64\n}\ntype HOwner struct {\n\t*HMeta\n\tName [2]string\n}\n'
+                          'type HDoc struct {\n\tID int32\n\tHAudit\n\tHOwner\n\tTail uint8\n}\n'
+                          'type HBase struct {\n\t*HMeta\n\tK int8\n}\ntype HRec struct {\n\tHBase\n\tHMeta float32\n\tZ int16\n}\n'
+                          'type PLeaf struct {\n\tX int32\n\tY string\n}\ntype PMid struct {\n\tQ int8\n\tPLeaf\n}\n'
+                          'type PTop struct {\n\tA int32\n\t*PMid\n\tB []byte\n}\ntype PWrap struct {\n\tN int\n\tT PTop\n}\n'
+                          'const decl_hidden = "HMeta{Rev int64; Who string} HAudit{*HMeta; At int64} HOwner{*HMeta; Name [2]string} HDoc{ID int32; HAudit; HOwner; Tail uint8} HBase{*HMeta; K int8} HRec{HBase; HMeta float32; Z int16} PLeaf{X int32; Y string} PMid{Q int8; PLeaf} PTop{A int32; *PMid; B []byte} PWrap{N int; T PTop}"')
+        c02 = [
+            ('optics.ForProduct1[HDoc, int64]("Rev")', 'Rev lies behind an embedded pointer that is ambiguous as a selector (two *HMeta at one depth)'),
+            ('optics.ForSpectrum1[HDoc, int64]("Rev")', 'reflector: Rev behind an ambiguous embedded pointer'),
+            ('optics.ForProduct1[HDoc, string]("Who")', 'Who behind an ambiguous embedded pointer'),
+            ('optics.ForProduct1[HDoc, string]()', 'the first string of HDoc is Who, behind an embedded pointer'),
+            ('optics.ForSpectrum1[HDoc, string]()', 'reflector by type: the first string of HDoc is Who'),
+            ('optics.NewLens[HDoc, int64](hseq.ForName(hseq.New[HDoc](), "Rev"))', 'lens by entry: Rev'),
+            ('optics.ForProduct1[HRec, int64]("Rev")', 'Rev lies behind an embedded pointer shadowed by the field HMeta float32'),
+            ('optics.ForSpectrum1[HRec, string]("Who")', 'reflector: Who behind a shadowed embedded pointer'),
+            ('optics.ForProduct1[HRec, int64]()', 'the first int64 of HRec is Rev, behind an embedded pointer'),
+            ('optics.NewReflector[HRec, string](hseq.ForName(hseq.New[HRec](), "Who"))', 'reflector by entry: Who'),
+            ('optics.ForProduct1[PTop, int32]("X")', 'X lies in a struct embedded by value in a struct embedded by pointer'),
+            ('optics.ForSpectrum1[PTop, string]("Y")', 'reflector: Y behind pointer-then-value embedding'),
+            ('optics.ForProduct1[PTop, string]()', 'the first string of PTop is Y'),
+        ]
+        ok02 = ['optics.ForProduct1[HDoc, int32]("ID")', 'optics.ForProduct1[HDoc, uint8]("Tail")', 'optics.ForProduct1[HRec, float32]()', 'optics.ForSpectrum1[HRec, int16]("Z")',
+                'optics.ForProduct1[PTop, int32]("A")', 'optics.ForProduct1[PTop, []byte]("B")', 'optics.ForProduct1[HDoc, int64]("At")']
+        c04 = [
+            ('optics.BiMapI[PTop, int32, MyInt]("X")', 'BiMapI over X, which lies behind pointer-then-value embedding'),
+            ('optics.BiMapS[PTop, string, MyStr]("Y")', 'BiMapS over Y'),
+            ('optics.ForShape2[PTop, int32, int32]("A", "X")', 'a shape lens one of whose fields lies behind an embedded pointer'),
+            ('optics.ForShape2[PTop, int32, string]("A", "Y")', 'a shape lens one of whose fields lies behind an embedded pointer'),
+            ('optics.Join(optics.ForProduct1[PWrap, PTop]("T"), optics.ForProduct1[PTop, int32]("X"))', 'Join whose inner lens reaches behind an embedded pointer'),
+            ('optics.Getter(optics.ForProduct1[PTop, int32]("X"), func(a int32) int64 { return int64(a) })', 'Getter over a lens behind an embedded pointer'),
+            ('optics.Setter(optics.ForProduct1[PTop, string]("Y"), func(b []byte) string { return string(b) })', 'Setter over a lens behind an embedded pointer'),
+            ('optics.BiMapI[HDoc, int64, int]("Rev")', 'BiMapI over Rev behind an ambiguous embedded pointer'),
+            ('optics.BiMapS[HRec, string, MyStr]("Who")', 'BiMapS over Who behind a shadowed embedded pointer'),
+            ('optics.ForShape3[HDoc, int32, int64, uint8]("ID", "Rev", "Tail")', 'a shape lens through an ambiguous embedded pointer'),
+        ]
+        ok04 = ['optics.BiMapI[PTop, int32, MyInt]("A")', 'optics.ForShape2[PTop, int32, []byte]("A", "B")', 'optics.Join(optics.ForProduct1[PWrap, PTop]("T"), optics.ForProduct1[PTop, int32]("A"))',
+                'optics.BiMapI[HDoc, int64, int]("At")']
+        for prop, neg, pos in (('C02', c02, ok02), ('C04', c04, ok04)):
+            self.out = self.bufs.setdefault(prop, [])
+            self.fns = self.fnsby.setdefault(prop, [])
+            fn = 'case_static_hidden_%s' % prop
+            self.fns.append(fn)
+            self.w('func %s() {' % fn)
+            self.w('\tc := rt.Case{ID: "%s-static-hidden", Site: "hidden-embedded-pointers", Struct: "HDoc, HRec, PTop", Req: "derivations reaching fields behind embedded pointers that selectors do not show", Expect: "panic", Decl: decl_hidden}' % prop)
+            self.w('\tif !rt.Want(%s, c.ID) || !rt.Begin(c) {\n\t\treturn\n\t}' % q(prop))
+            for expr, why in neg:
+                self.w('\tif pn, _ := rt.Derive(func() { _ = %s }); !pn {\n\t\trt.Accepted(%s, c, %s)\n\t}' % (expr, q(prop), q(expr + ': ' + why)))
+            for expr in pos:
+                self.w('\tif pn, msg := rt.Derive(func() { _ = %s }); pn {\n\t\trt.Refused(%s, c, %s + msg)\n\t}' % (expr, q(prop), q(expr + ': ')))
+            self.w('\trt.End(c, "%s/static/hidden", true)\n}\n' % prop)
+
     def twist(self, st):
         """the same type names with another layout (fields reversed, one more in front), as local declarations
         in dependency order; returns (twisted root, [decl text])"""
@@ -1229,6 +1286,7 @@ func off[S any, F any](s *S, f *F) uintptr { return uintptr(unsafe.Pointer(f)) -
         self.bufs, self.fnsby = {}, {}
         self.gen_cases()
         self.gen_static()
+        self.gen_static_hidden()
         srcs = {}
         for prop in ('C01', 'C02', 'C03', 'C04'):
             self.out = []
